@@ -27,6 +27,8 @@ type Gen struct {
 	dupCreate bool
 	canonical bool // canonical child order (FAR id first etc.)
 	slotGen   map[[2]int]int
+	mass      int // >0: many sessions with 8 periodic URRs of one period (batch limit)
+	massPeriod uint32
 }
 
 func pick[T any](r *rand.Rand, xs ...T) T { return xs[r.IntN(len(xs))] }
@@ -93,7 +95,10 @@ func profileConfig(p string, seed uint64) RunConfig {
 		}
 	case "C15":
 		c.NSlots = 2 + r.IntN(4)
-		c.Steps = 30 + r.IntN(80)
+		c.Steps = 30 + r.IntN(50)
+		if seed%3 == 0 {
+			c.Steps = 25 + r.IntN(20)
+		}
 	case "C17":
 		c.FinalStop = true
 		c.AutoAnswer = r.IntN(2) == 0
@@ -167,6 +172,11 @@ func newGen(s *Sim) *Gen {
 	case "C15":
 		g.perioOK = true
 		g.w = map[string]int{"est": 6, "modurr": 10, "del": 3, "adv": 10, "advp": 10, "reassoc": 1}
+		if s.cfg.Seed%3 == 0 {
+			g.mass = 1
+			g.massPeriod = uint32(pick(g.rng, 1, 2, 3))
+			g.w = map[string]int{"est": 30, "modurr": 3, "del": 3, "advshort": 6, "reassoc": 1}
+		}
 	case "C17":
 		g.mode = "clean"
 		g.perioOK = true
@@ -705,15 +715,25 @@ func (g *Gen) one() (Action, bool) {
 	case "assoc", "reassoc":
 		return Action{Op: "send", SMF: m.Idx, Msg: &MsgIntent{T: "assoc", Seq: g.seq(m)}}, true
 	case "est":
-		if g.liveOf(m, slot) != nil && g.chance(0.7) {
+		if g.liveOf(m, slot) != nil && g.chance(0.7) && g.mass == 0 {
 			return Action{}, false
 		}
 		if g.s.cfg.Profile == "C13" || g.s.cfg.Profile == "C14" {
 			return Action{Op: "send", SMF: m.Idx, Msg: g.bufEst(m, slot)}, true
 		}
+		if g.s.cfg.Profile == "C15" || g.s.cfg.Profile == "C18" {
+			if g.mass > 0 {
+				return Action{Op: "send", SMF: m.Idx, Msg: g.perioEst(m, slot, 8, g.massPeriod)}, true
+			}
+			return Action{Op: "send", SMF: m.Idx, Msg: g.perioEst(m, slot, 1+g.intn(4), 0)}, true
+		}
 		return Action{Op: "send", SMF: m.Idx, Msg: g.estMsg(m, slot)}, true
 	case "farflip":
 		return g.farFlip()
+	case "modurr":
+		return g.modURR()
+	case "raw":
+		return g.rawAction()
 	case "rmpdr":
 		mm, sl, x := g.anyLive()
 		if x == nil {
@@ -842,6 +862,8 @@ func (g *Gen) one() (Action, bool) {
 		return Action{Op: "adv", Ms: max64(1, W/2-5)}, true
 	case "advrt":
 		return Action{Op: "adv", Ms: RT + int64(g.intn(20))}, true
+	case "advshort":
+		return Action{Op: "adv", Ms: int64(pick(g.rng, 500, 1000, 1500, 3100))}, true
 	case "advp":
 		return Action{Op: "adv", Ms: int64(pick(g.rng, 1000, 2000, 3000, 5000, 10000, 500, 30000))}, true
 	case "fault":
@@ -942,6 +964,55 @@ func (g *Gen) kbuf() (Action, bool) {
 
 // special: profile-specific actions.
 func (g *Gen) special() (Action, bool) { return Action{}, false }
+
+// perioEst: a session with n periodic URRs (ids 1..n), periods from a small set so
+// that groups are shared between sessions.
+func (g *Gen) perioEst(m *SMF, slot int, n int, period uint32) *MsgIntent {
+	g.cp++
+	in := &MsgIntent{T: "est", Seq: g.seq(m), Slot: slot, CPSEID: g.cp<<16 | uint64(m.Idx+1)}
+	in.Create = append(in.Create, RuleIntent{Kind: "far", ID: 1, Action: u16p(2), ActionLen: 1})
+	for i := 1; i <= n; i++ {
+		p := period
+		if p == 0 {
+			p = uint32(pick(g.rng, 1, 2, 3, 5, 10))
+		}
+		t := uint32(1)
+		if g.chance(0.15) && period == 0 {
+			t = 2 // not periodic
+		}
+		meth := uint8(pick(g.rng, 2, 3, 1, 7))
+		in.Create = append(in.Create, RuleIntent{Kind: "urr", ID: uint32(i), Method: &meth, Trigger: &t, TrigLen: pick(g.rng, 2, 3), Period: &p, MInfo: u8p(uint8(pick(g.rng, 0, 0x10)))})
+	}
+	in.Create = append(in.Create, RuleIntent{Kind: "pdr", ID: 1, Prec: u32p(1), SrcIf: u8p(1), FARID: u32p(1), URRIDs: []uint32{1}})
+	return in
+}
+
+func (g *Gen) modURR() (Action, bool) {
+	m, sl, x := g.anyLive()
+	if x == nil {
+		return Action{}, false
+	}
+	in := &MsgIntent{T: "mod", Seq: g.seq(m), Slot: sl}
+	have := sortedRefs(x.Req, "urr")
+	if len(have) > 0 && g.chance(0.55) {
+		in.Remove = append(in.Remove, RuleRef{"urr", have[g.intn(len(have))]})
+	} else {
+		var free []uint32
+		for c := 1; c <= 8; c++ {
+			if !x.Req[RuleRef{"urr", uint32(c)}] {
+				free = append(free, uint32(c))
+			}
+		}
+		if len(free) == 0 {
+			return Action{}, false
+		}
+		p := uint32(pick(g.rng, 1, 2, 3, 5, 10))
+		t := uint32(1)
+		meth := uint8(2)
+		in.Create = append(in.Create, RuleIntent{Kind: "urr", ID: free[g.intn(len(free))], Method: &meth, Trigger: &t, TrigLen: 2, Period: &p, MInfo: u8p(0)})
+	}
+	return Action{Op: "send", SMF: m.Idx, Msg: in}, true
+}
 
 // bufSession: a session shaped for buffering: downlink PDRs -> FARs that buffer.
 func (g *Gen) bufEst(m *SMF, slot int) *MsgIntent {
